@@ -1,2 +1,481 @@
+(* C07/Proofs.v — totality (no Panic, no OutOfFuel) of every modelled parser, round trips. *)
 From OV Require Import Common.Base C07.Model.
-Lemma placeholder : True. Proof. exact I. Qed.
+From Coq Require Import ZifyBool ZifyNat ZifyN.
+Local Open Scope N_scope.
+
+Definition safe {A} (r : result A) : Prop := is_crash r = false.
+
+Lemma safe_bind {A B} (r : result A) (f : A -> result B) :
+  safe r -> (forall a, r = Ok a -> safe (f a)) -> safe (rbind r f).
+Proof. destruct r; cbn; intros H1 H2; auto. Qed.
+
+Lemma safe_rmap {A B} (f : A -> B) (r : result A) : safe r -> safe (rmap f r).
+Proof. destruct r; cbn; auto. Qed.
+
+Lemma safe_idx i l : i < lenN l -> safe (idx i l).
+Proof.
+  unfold idx, index, lenN, safe. intros H.
+  destruct (nth_error l (N.to_nat i)) eqn:E; [reflexivity|].
+  apply nth_error_None in E. lia.
+Qed.
+
+Lemma safe_sl lo hi l : lo <= hi -> hi <= lenN l -> safe (sl lo hi l).
+Proof.
+  unfold sl, slice, lenN, safe. intros H1 H2.
+  destruct (Nat.leb_spec (N.to_nat lo) (N.to_nat hi)); [|lia].
+  destruct (Nat.leb_spec (N.to_nat hi) (length l)); [|lia]. reflexivity.
+Qed.
+
+Lemma sl_len lo hi l r : sl lo hi l = Ok r -> lenN r = hi - lo /\ lo <= hi /\ hi <= lenN l.
+Proof.
+  unfold sl, lenN. intros H. pose proof (slice_length _ _ _ _ H) as HL.
+  unfold slice in H.
+  destruct (Nat.leb_spec (N.to_nat lo) (N.to_nat hi)); cbn in H; [|discriminate].
+  destruct (Nat.leb_spec (N.to_nat hi) (length l)); cbn in H; [|discriminate]. lia.
+Qed.
+
+Lemma safe_slf lo l : lo <= lenN l -> safe (slf lo l).
+Proof.
+  unfold slf, slice, lenN, safe. intros H1.
+  destruct (Nat.leb_spec (N.to_nat lo) (length l)); [|lia].
+  rewrite Nat.leb_refl. reflexivity.
+Qed.
+
+Lemma slf_len lo l r : slf lo l = Ok r -> lenN r = lenN l - lo /\ lo <= lenN l.
+Proof.
+  unfold slf, lenN. intros H. pose proof (slice_length _ _ _ _ H) as HL.
+  unfold slice in H.
+  destruct (Nat.leb_spec (N.to_nat lo) (length l)); cbn in H; [|discriminate]. lia.
+Qed.
+
+Lemma safe_u16at i l : i + 2 <= lenN l -> safe (u16at i l).
+Proof.
+  intros H. unfold u16at.
+  apply safe_bind; [apply safe_idx; lia|intros a _].
+  apply safe_bind; [apply safe_idx; lia|intros b _]. reflexivity.
+Qed.
+
+Lemma safe_u32at i l : i + 4 <= lenN l -> safe (u32at i l).
+Proof.
+  intros H. unfold u32at.
+  apply safe_bind; [apply safe_idx; lia|intros a _].
+  apply safe_bind; [apply safe_idx; lia|intros b _].
+  apply safe_bind; [apply safe_idx; lia|intros c _].
+  apply safe_bind; [apply safe_idx; lia|intros d _]. reflexivity.
+Qed.
+
+Lemma lenN_nat l : N.to_nat (lenN l) = length l.
+Proof. unfold lenN. lia. Qed.
+
+(* turn slice facts in the context into length facts *)
+Ltac note_len :=
+  repeat match goal with
+  | H : sl _ _ _ = Ok _ |- _ => apply sl_len in H
+  | H : slf _ _ = Ok _ |- _ => apply slf_len in H
+  end.
+
+Ltac safe_step :=
+  match goal with
+  | |- safe (rbind _ _) =>
+      apply safe_bind; [ | let a := fresh "a" in let H := fresh "Hb" in intros a H; note_len ]
+  | |- safe (rmap _ _) => apply safe_rmap
+  | |- safe (idx _ _) => apply safe_idx; lia
+  | |- safe (sl _ _ _) => apply safe_sl; lia
+  | |- safe (slf _ _) => apply safe_slf; lia
+  | |- safe (u16at _ _) => apply safe_u16at; lia
+  | |- safe (u32at _ _) => apply safe_u32at; lia
+  | |- safe (Ok _) => reflexivity
+  | |- safe (Err _) => reflexivity
+  | |- safe (if ?c then _ else _) => let E := fresh "E" in destruct c eqn:E
+  | |- safe (match ?x with _ => _ end) => let E := fresh "E" in destruct x eqn:E
+  | |- safe (let _ := _ in _) => cbv zeta
+  end.
+Ltac safe_tac := repeat safe_step.
+
+(* ---------------- PPP header helpers and dispatcher ---------------- *)
+Lemma ppp_hdr_total data : safe (ppp_hdr Repaired data).
+Proof. unfold ppp_hdr. safe_tac. Qed.
+
+Lemma handle_lcp_total cfg code id data : safe (handle_lcp cfg code id data).
+Proof. unfold handle_lcp. safe_tac. Qed.
+
+Lemma handle_frame_total cfg proto payload : safe (handle_frame Repaired cfg proto payload).
+Proof. unfold handle_frame. safe_tac; apply handle_lcp_total. Qed.
+
+(* ---------------- pkg/ppp ---------------- *)
+Ltac fuel_ind fuel :=
+  induction fuel as [|fuel IH]; [intros; lia|].
+
+Lemma ppp_opts_loop_total : forall fuel data, (length data < fuel)%nat -> safe (ppp_opts_loop fuel data).
+Proof.
+  fuel_ind fuel. intros data Hf. cbn [ppp_opts_loop]. safe_tac.
+  apply IH. unfold lenN in *. lia.
+Qed.
+Lemma ppp_parse_options_total data : safe (ppp_parse_options data).
+Proof. apply ppp_opts_loop_total. lia. Qed.
+
+Lemma pap_req_total data : safe (pap_req data).
+Proof. unfold pap_req. safe_tac. Qed.
+Lemma pap_msg_total data : safe (pap_msg data).
+Proof. unfold pap_msg. safe_tac. Qed.
+Lemma chap_challenge_total data : safe (chap_challenge data).
+Proof. unfold chap_challenge. safe_tac. Qed.
+Lemma chap_response_total data : safe (chap_response data).
+Proof. unfold chap_response. safe_tac. Qed.
+Lemma echo_tail_total data : safe (echo_tail data).
+Proof. unfold echo_tail. safe_tac. Qed.
+
+(* ---------------- PPPoE tags ---------------- *)
+Lemma vendor_loop_total : forall fuel off data c r,
+  (N.to_nat (lenN data - off) < fuel)%nat -> safe (vendor_loop fuel off data c r).
+Proof.
+  fuel_ind fuel. intros off data c r Hf. cbn [vendor_loop]. safe_tac; apply IH; lia.
+Qed.
+Lemma parse_vendor_total data c r : safe (parse_vendor data c r).
+Proof.
+  unfold parse_vendor. safe_tac. apply vendor_loop_total. unfold lenN. lia.
+Qed.
+Lemma tag_apply_total t ty v : safe (tag_apply t ty v).
+Proof. unfold tag_apply. safe_tac. apply parse_vendor_total. Qed.
+Lemma tags_loop_total : forall fuel off payload t,
+  (N.to_nat (lenN payload - off) < fuel)%nat -> safe (tags_loop fuel off payload t).
+Proof.
+  fuel_ind fuel. intros off payload t Hf. cbn [tags_loop]. safe_tac.
+  - apply tag_apply_total.
+  - apply IH. lia.
+Qed.
+Lemma parse_tags_total payload : safe (parse_tags payload).
+Proof. apply tags_loop_total. unfold lenN. lia. Qed.
+
+(* ---------------- inversion of successful binds ---------------- *)
+Lemma Ok_inj {A} (a b : A) : @Ok A a = Ok b -> a = b.
+Proof. congruence. Qed.
+Ltac inv_ok :=
+  repeat match goal with
+  | H : Ok ?a = Ok ?b |- _ => apply Ok_inj in H; subst
+  | H : Err _ = Ok _ |- _ => discriminate H
+  | H : Panic = Ok _ |- _ => discriminate H
+  | H : OutOfFuel = Ok _ |- _ => discriminate H
+  | H : (if ?c then _ else _) = Ok _ |- _ => let E := fresh "E" in destruct c eqn:E
+  | H : rbind ?r _ = Ok _ |- _ =>
+      let x := fresh "x" in let E := fresh "E" in
+      destruct r as [x| | |] eqn:E; cbn [rbind] in H; try discriminate H
+  end.
+
+(* ---------------- L2TP ---------------- *)
+Lemma l2tp_parse_total b : safe (l2tp_parse b).
+Proof. unfold l2tp_parse. safe_tac; inv_ok; cbv [fst snd] in *; note_len; safe_tac. Qed.
+
+Lemma avps_loop_total : forall fuel b seen, (length b < fuel)%nat -> safe (avps_loop fuel b seen).
+Proof.
+  fuel_ind fuel. intros b seen Hf. cbn [avps_loop]. safe_tac.
+  apply IH. unfold lenN in *. lia.
+Qed.
+Lemma parse_avps_total b : safe (parse_avps b).
+Proof. apply avps_loop_total. lia. Qed.
+Lemma is_l2tpv3_total b : safe (is_l2tpv3 b).
+Proof. unfold is_l2tpv3. safe_tac. Qed.
+
+(* ---------------- DHCPv6 ---------------- *)
+Lemma ia_loop_total : forall fuel pd sub a, (length sub < fuel)%nat -> safe (ia_loop fuel pd sub a).
+Proof.
+  fuel_ind fuel. intros pd sub a Hf. cbn [ia_loop]. safe_tac; apply IH; unfold lenN in *; lia.
+Qed.
+Lemma parse_ia_total pd data : safe (parse_ia pd data).
+Proof. unfold parse_ia. safe_tac. apply ia_loop_total. lia. Qed.
+Lemma dns_loop_total : forall fuel i data, (N.to_nat (lenN data - i) < fuel)%nat -> safe (dns_loop fuel i data).
+Proof.
+  fuel_ind fuel. intros i data Hf. cbn [dns_loop]. safe_tac. apply IH. lia.
+Qed.
+Lemma parse_dns6_total data : safe (parse_dns6 data).
+Proof. unfold parse_dns6. safe_tac. apply dns_loop_total. unfold lenN. lia. Qed.
+Lemma opt6_apply_total o code d : safe (opt6_apply o code d).
+Proof.
+  unfold opt6_apply. safe_tac; try apply parse_ia_total; try apply parse_dns6_total.
+Qed.
+Lemma opts6_loop_total : forall fuel data o, (length data < fuel)%nat -> safe (opts6_loop fuel data o).
+Proof.
+  fuel_ind fuel. intros data o Hf. cbn [opts6_loop]. safe_tac.
+  - apply opt6_apply_total.
+  - apply IH. unfold lenN in *. lia.
+Qed.
+Lemma parse_options6_total data : safe (parse_options6 data).
+Proof. apply opts6_loop_total. lia. Qed.
+Lemma parse_message6_total data : safe (parse_message6 data).
+Proof. unfold parse_message6. safe_tac. apply parse_options6_total. Qed.
+
+Lemma find_relay_msg_total : forall fuel off data,
+  (N.to_nat (lenN data - off) < fuel)%nat -> safe (find_relay_msg fuel off data).
+Proof.
+  fuel_ind fuel. intros off data Hf. cbn [find_relay_msg]. safe_tac. apply IH. lia.
+Qed.
+(* the inner message found by the walk is strictly shorter than the relay message *)
+Lemma find_relay_msg_shorter : forall fuel off data inner,
+  find_relay_msg fuel off data = Ok (Some inner) -> 4 <= off -> lenN inner < lenN data.
+Proof.
+  induction fuel as [|fuel IH]; intros off data inner H Hoff; [discriminate|].
+  cbn [find_relay_msg] in H.
+  destruct (off + 4 <=? lenN data) eqn:E1; [|discriminate].
+  destruct (s <- sl off (off + 2) data;; u16at 0 s) as [code| | |] eqn:Ec; cbn [rbind] in H; try discriminate.
+  destruct (s <- sl (off + 2) (off + 4) data;; u16at 0 s) as [ln| | |] eqn:El; cbn [rbind] in H; try discriminate.
+  destruct (lenN data <? off + 4 + ln) eqn:E2; [discriminate|].
+  destruct (code =? 9) eqn:E3.
+  - destruct (sl (off + 4) (off + 4 + ln) data) as [i| | |] eqn:Es; cbn [rbind] in H; try discriminate.
+    apply Ok_inj in H. inversion H; subst. apply sl_len in Es. lia.
+  - eapply IH; [exact H|lia].
+Qed.
+
+Ltac relay_tac IH :=
+  safe_tac; try apply parse_options6_total; try (apply find_relay_msg_total; unfold lenN; lia);
+  try (match goal with H : find_relay_msg _ _ _ = Ok (Some _) |- _ =>
+         apply find_relay_msg_shorter in H; [|lia] end);
+  try (apply IH; unfold lenN in *; lia);
+  try (match goal with H : parse_message6 ?b = _ |- _ =>
+         pose proof (parse_message6_total b) as P; rewrite H in P; discriminate P end).
+
+Lemma unwrap_relay_total : forall fuel data, (length data < fuel)%nat -> safe (unwrap_relay fuel data).
+Proof. fuel_ind fuel. intros data Hf. cbn [unwrap_relay]. relay_tac IH. Qed.
+Lemma unwrap_relay_top_total data : safe (unwrap_relay_top data).
+Proof. apply unwrap_relay_total. lia. Qed.
+Lemma unwrap_relay_reply_total : forall fuel data, (length data < fuel)%nat -> safe (unwrap_relay_reply fuel data).
+Proof. fuel_ind fuel. intros data Hf. cbn [unwrap_relay_reply]. relay_tac IH. Qed.
+Lemma unwrap_relay_reply_top_total data : safe (unwrap_relay_reply_top data).
+Proof. apply unwrap_relay_reply_total. lia. Qed.
+
+Lemma extract_loop_total : forall fuel i pkt,
+  (N.to_nat (lenN pkt - i) < fuel)%nat -> safe (extract_loop fuel i pkt).
+Proof. fuel_ind fuel. intros i pkt Hf. cbn [extract_loop]. safe_tac. apply IH. lia. Qed.
+Lemma extract_relay_message_total pkt : safe (extract_relay_message pkt).
+Proof. unfold extract_relay_message. safe_tac. apply extract_loop_total. unfold lenN. lia. Qed.
+Lemma relay_unwrap_reply_total pkt : safe (relay_unwrap_reply pkt).
+Proof. unfold relay_unwrap_reply. safe_tac. apply extract_relay_message_total. Qed.
+Lemma relay_txid_total pkt : safe (relay_txid pkt).
+Proof. unfold relay_txid. safe_tac. apply extract_relay_message_total. Qed.
+
+(* ---------------- DHCPv4 option rewriting ---------------- *)
+Lemma remove_range_total data s e : s <= e -> e <= lenN data -> safe (remove_range data s e).
+Proof. intros. unfold remove_range. safe_tac. Qed.
+
+(* the scan only ever reports ranges inside the packet *)
+Definition ex_ok (pkt : bytes) (ex : option (N * N)) : Prop :=
+  match ex with Some (s, e) => s <= e /\ e <= lenN pkt | None => True end.
+Lemma o82_scan_total : forall fuel i pkt ex,
+  (N.to_nat (lenN pkt - i) < fuel)%nat -> safe (o82_scan fuel i pkt ex).
+Proof. fuel_ind fuel. intros i pkt ex Hf. cbn [o82_scan]. safe_tac; apply IH; lia. Qed.
+Lemma lenN_app a b : lenN (a ++ b) = lenN a + lenN b.
+Proof. unfold lenN. rewrite app_length. lia. Qed.
+Lemma remove_range_len data s e r :
+  remove_range data s e = Ok r -> s <= e -> lenN r = lenN data - (e - s).
+Proof.
+  unfold remove_range. intros H Hse. inv_ok. note_len. rewrite lenN_app. lia.
+Qed.
+Definition ex_le (i : N) (ex : option (N * N)) : Prop :=
+  match ex with Some (s, e) => s <= e /\ e <= i | None => True end.
+Definition scan_post (pkt : bytes) (r : option N * option (N * N)) : Prop :=
+  match fst r with
+  | Some ei => ei < lenN pkt /\ ex_le ei (snd r)
+  | None => ex_le (lenN pkt) (snd r)
+  end.
+Lemma o82_scan_inv : forall fuel i pkt ex r,
+  o82_scan fuel i pkt ex = Ok r -> i <= lenN pkt -> ex_le i ex -> scan_post pkt r.
+Proof.
+  induction fuel as [|fuel IH]; intros i pkt ex r H Hi Hex; [discriminate|].
+  cbn [o82_scan] in H. unfold scan_post.
+  destruct (i <? lenN pkt) eqn:E0.
+  2:{ apply Ok_inj in H; subst; cbn [fst snd]. destruct ex as [[s e]|]; cbn in *; lia. }
+  destruct (idx i pkt) as [c| | |] eqn:Ec; cbn [rbind] in H; try discriminate H.
+  destruct (c =? 0) eqn:E1.
+  { eapply (IH _ _ _ _ H); [lia|]. destruct ex as [[s e]|]; cbn in *; lia. }
+  destruct (c =? 255) eqn:E2.
+  { apply Ok_inj in H; subst; cbn [fst snd]. split; [lia|exact Hex]. }
+  destruct (lenN pkt <=? i + 1) eqn:E3.
+  { apply Ok_inj in H; subst; cbn [fst snd]. destruct ex as [[s e]|]; cbn in *; lia. }
+  destruct (idx (i + 1) pkt) as [ol| | |] eqn:Eo; cbn [rbind] in H; try discriminate H.
+  destruct (lenN pkt <? i + 2 + ol) eqn:E4.
+  { apply Ok_inj in H; subst; cbn [fst snd]. destruct ex as [[s e]|]; cbn in *; lia. }
+  eapply (IH _ _ _ _ H); [lia|].
+  destruct (c =? 82); [cbn; lia|]. destruct ex as [[s e]|]; cbn in *; lia.
+Qed.
+
+Lemma insert_option82_total pkt opt82 policy : safe (insert_option82 pkt opt82 policy).
+Proof.
+  unfold insert_option82. destruct (lenN pkt <? 240) eqn:E; [reflexivity|].
+  apply safe_bind; [apply o82_scan_total; unfold lenN; lia|]. intros [eo ex] Hs.
+  apply o82_scan_inv in Hs; [|lia|exact I]. unfold scan_post in Hs. cbn [fst snd] in *.
+  assert (Hrr : forall s e, ex = Some (s, e) -> s <= e /\ e <= lenN pkt /\
+                 e <= match eo with Some e0 => e0 | None => lenN pkt end /\
+                 match eo with Some e0 => e0 | None => lenN pkt end <= lenN pkt).
+  { intros s e ->. destruct eo; cbn in Hs; lia. }
+  assert (Hee : match eo with Some e0 => e0 | None => lenN pkt end <= lenN pkt).
+  { destruct eo; cbn in Hs; lia. }
+  set (endidx := match eo with Some e0 => e0 | None => lenN pkt end) in *.
+  assert (Hrep : safe (pe <- match ex with
+                   | Some (s, e) => p <- remove_range pkt s e;; Ok (p, endidx - (e - s))
+                   | None => Ok (pkt, endidx) end;;
+                 (let pkt' := fst pe in let endidx' := snd pe in
+                  a <- sl 0 endidx' pkt';; b <- slf endidx' pkt';; Ok (a ++ opt82 ++ b)))).
+  { destruct ex as [[s e]|].
+    - destruct (Hrr s e eq_refl) as (H1 & H2 & H3 & H4).
+      apply safe_bind.
+      + apply safe_bind; [apply remove_range_total; lia|reflexivity].
+      + intros [p n] Hp. destruct (remove_range pkt s e) as [q| | |] eqn:Eq; cbn [rbind] in Hp; try discriminate Hp.
+        apply Ok_inj in Hp. inversion Hp; subst. apply remove_range_len in Eq; [|lia]. cbv [fst snd]. safe_tac.
+    - cbn [rbind fst snd]. safe_tac. }
+  destruct ex as [[s e]|]; destruct policy as [|[p|p|]]; try exact Hrep;
+    try (destruct p; exact Hrep); try reflexivity.
+  - destruct p; try exact Hrep. destruct (Hrr s e eq_refl) as (H1 & H2 & _). apply remove_range_total; lia.
+  - destruct p; try exact Hrep. reflexivity.
+Qed.
+
+Lemma strip_scan_total : forall fuel i pkt, (N.to_nat (lenN pkt - i) < fuel)%nat -> safe (strip_scan fuel i pkt).
+Proof. fuel_ind fuel. intros i pkt Hf. cbn [strip_scan]. safe_tac; apply IH; lia. Qed.
+Lemma strip_scan_inv : forall fuel i pkt s e,
+  strip_scan fuel i pkt = Ok (Some (s, e)) -> s <= e /\ e <= lenN pkt.
+Proof.
+  induction fuel as [|fuel IH]; intros i pkt s e H; [discriminate|].
+  cbn [strip_scan] in H. inv_ok; try discriminate; try (eapply IH; eassumption).
+  inversion H; subst. lia.
+Qed.
+Lemma strip_option82_total pkt : safe (strip_option82 pkt).
+Proof.
+  unfold strip_option82. safe_tac; try (apply strip_scan_total; unfold lenN; lia).
+  subst. apply strip_scan_inv in Hb. apply remove_range_total; lia.
+Qed.
+
+Lemma find_opt_loop_total : forall fuel i pkt code,
+  (N.to_nat (lenN pkt - i) < fuel)%nat -> safe (find_opt_loop fuel i pkt code).
+Proof. fuel_ind fuel. intros i pkt code Hf. cbn [find_opt_loop]. safe_tac; apply IH; lia. Qed.
+Lemma find_option_total pkt code : safe (find_option pkt code).
+Proof. unfold find_option. safe_tac. apply find_opt_loop_total. unfold lenN. lia. Qed.
+
+Lemma ins_scan_total : forall fuel i pkt, (N.to_nat (lenN pkt - i) < fuel)%nat -> safe (ins_scan fuel i pkt).
+Proof. fuel_ind fuel. intros i pkt Hf. cbn [ins_scan]. safe_tac; apply IH; lia. Qed.
+Lemma ins_scan_inv : forall fuel i pkt e, ins_scan fuel i pkt = Ok e -> e <= lenN pkt.
+Proof.
+  induction fuel as [|fuel IH]; intros i pkt e H; [discriminate|].
+  cbn [ins_scan] in H. inv_ok; try lia; try (eapply IH; eassumption).
+Qed.
+Lemma insert_option_total pkt code val : safe (insert_option pkt code val).
+Proof.
+  unfold insert_option. apply safe_bind.
+  - safe_tac. apply ins_scan_total. unfold lenN. lia.
+  - intros e He. assert (e <= lenN pkt).
+    { destruct (240 <=? lenN pkt); [eapply ins_scan_inv; eassumption|apply Ok_inj in He; lia]. }
+    safe_tac.
+Qed.
+Lemma set_option4_total pkt code val : safe (set_option4 pkt code val).
+Proof.
+  unfold set_option4. safe_tac; try apply find_option_total; try apply insert_option_total.
+Qed.
+Lemma get_option4_total pkt code : safe (get_option4 pkt code).
+Proof. unfold get_option4. safe_tac; apply find_option_total. Qed.
+
+(* ---------------- DHCPv4 parsing ---------------- *)
+Lemma sub82_loop_total : forall fuel i data c r,
+  (N.to_nat (lenN data - i) < fuel)%nat -> safe (sub82_loop fuel i data c r).
+Proof. fuel_ind fuel. intros i data c r Hf. cbn [sub82_loop]. safe_tac; apply IH; lia. Qed.
+Lemma parse_sub82_total data : safe (parse_sub82 data).
+Proof. apply sub82_loop_total. unfold lenN. lia. Qed.
+Lemma d4_opts_loop_total : forall fuel i data m,
+  (N.to_nat (lenN data - i) < fuel)%nat -> safe (d4_opts_loop fuel i data m).
+Proof. fuel_ind fuel. intros i data m Hf. cbn [d4_opts_loop]. safe_tac; apply IH; lia. Qed.
+Lemma dhcp_parse_total data : safe (dhcp_parse data).
+Proof.
+  unfold dhcp_parse. safe_tac; try apply parse_sub82_total.
+  apply d4_opts_loop_total. unfold lenN. lia.
+Qed.
+
+Lemma dns4_loop_total : forall fuel i ol d,
+  ol <= lenN d -> (N.to_nat (ol - i) < fuel)%nat -> safe (dns4_loop fuel i ol d).
+Proof. fuel_ind fuel. intros i ol d Ho Hf. cbn [dns4_loop]. safe_tac. apply IH; lia. Qed.
+Lemma o4_apply_total o t ol d : ol = lenN d -> safe (o4_apply o t ol d).
+Proof.
+  intros ->. unfold o4_apply. safe_tac. apply dns4_loop_total; unfold lenN; lia.
+Qed.
+Lemma o4_loop_total : forall fuel data o, (length data < fuel)%nat -> safe (o4_loop fuel data o).
+Proof.
+  fuel_ind fuel. intros data o Hf. cbn [o4_loop]. safe_tac.
+  - apply IH. unfold lenN in *. lia.
+  - apply o4_apply_total. lia.
+  - apply IH. unfold lenN in *. lia.
+Qed.
+Lemma parse_message4_total data : safe (parse_message4 data).
+Proof.
+  unfold parse_message4. safe_tac.
+  all: try (match goal with |- context [if ?c then 16 else _] => destruct c eqn:? end); safe_tac.
+  all: apply o4_loop_total; lia.
+Qed.
+
+(* ---------------- RADIUS Message-Authenticator offset ---------------- *)
+Lemma attr80_loop_total : forall fuel i raw, (N.to_nat (lenN raw - i) < fuel)%nat -> safe (attr80_loop fuel i raw).
+Proof. fuel_ind fuel. intros i raw Hf. cbn [attr80_loop]. safe_tac. apply IH. lia. Qed.
+Lemma attr80_loop_inv : forall fuel i raw off, attr80_loop fuel i raw = Ok (Some off) -> off + 16 <= lenN raw.
+Proof.
+  induction fuel as [|fuel IH]; intros i raw off H; [discriminate|].
+  cbn [attr80_loop] in H. inv_ok; try discriminate; try (eapply IH; eassumption).
+  inversion H; subst. lia.
+Qed.
+Lemma find_attr80_total raw : safe (find_attr80 raw).
+Proof. unfold find_attr80. safe_tac. apply attr80_loop_total. unfold lenN. lia. Qed.
+Lemma attr80_window_total raw : safe (attr80_window raw).
+Proof.
+  unfold attr80_window. safe_tac; try apply find_attr80_total. subst.
+  unfold find_attr80 in Hb. destruct (lenN raw <? 20); [discriminate|].
+  apply attr80_loop_inv in Hb. apply safe_sl; lia.
+Qed.
+
+(* ---------------- the driver-level statement ---------------- *)
+Lemma run_total entry na ba : safe (run Repaired entry na ba).
+Proof.
+  unfold run. cbv zeta.
+  repeat (match goal with |- safe (if ?c then _ else _) => destruct c end;
+          [apply safe_rmap;
+           first [apply ppp_hdr_total|apply handle_frame_total|apply ppp_parse_options_total|apply pap_req_total
+                 |apply pap_msg_total|apply chap_challenge_total|apply chap_response_total|apply echo_tail_total
+                 |apply parse_tags_total|apply l2tp_parse_total|apply parse_avps_total|apply is_l2tpv3_total
+                 |apply parse_message6_total|apply unwrap_relay_top_total|apply unwrap_relay_reply_top_total
+                 |apply relay_unwrap_reply_total|apply relay_txid_total|apply insert_option82_total
+                 |apply strip_option82_total|apply set_option4_total|apply get_option4_total
+                 |apply parse_sub82_total|apply dhcp_parse_total|apply parse_message4_total
+                 |apply attr80_window_total]|]).
+  reflexivity.
+Qed.
+
+(* ---------------- the defect and its repair ---------------- *)
+Lemma handle_frame_refuted :
+  exists cfg proto payload, handle_frame Defective cfg proto payload = Panic.
+Proof. exists (mk_dcfg true false false), 49185, [1; 1; 0; 0]. vm_compute. reflexivity. Qed.
+Lemma ppp_hdr_refuted : exists data, ppp_hdr Defective data = Panic.
+Proof. exists [1; 1; 0; 0]. vm_compute. reflexivity. Qed.
+
+(* the repair only changes the inputs on which the current code panics, and rejects them with the
+   length-mismatch error *)
+Lemma handle_frame_repair_conservative cfg proto payload :
+  handle_frame Defective cfg proto payload = handle_frame Repaired cfg proto payload \/
+  (handle_frame Defective cfg proto payload = Panic /\ handle_frame Repaired cfg proto payload = Err 2).
+Proof.
+  unfold handle_frame.
+  destruct (proto =? 87); [left; reflexivity|].
+  destruct (lenN payload <? 4) eqn:E0; [left; reflexivity|].
+  destruct (idx 0 payload) as [code| | |]; cbn [rbind]; try (left; reflexivity).
+  destruct (idx 1 payload) as [id| | |]; cbn [rbind]; try (left; reflexivity).
+  destruct (h <- sl 2 4 payload;; u16at 0 h) as [len| | |]; cbn [rbind]; try (left; reflexivity).
+  destruct (lenN payload <? len) eqn:E1; [left; reflexivity|].
+  destruct (len <? 4) eqn:E2; [|left; reflexivity].
+  right. split; [|reflexivity].
+  unfold sl, slice. destruct (Nat.leb_spec (N.to_nat 4) (N.to_nat len)); [lia|]. reflexivity.
+Qed.
+Lemma ppp_hdr_repair_conservative data :
+  ppp_hdr Defective data = ppp_hdr Repaired data \/
+  (ppp_hdr Defective data = Panic /\ ppp_hdr Repaired data = Err 1).
+Proof.
+  unfold ppp_hdr.
+  destruct (lenN data <? 4) eqn:E0; [left; reflexivity|].
+  destruct (idx 0 data) as [code| | |]; cbn [rbind]; try (left; reflexivity).
+  destruct (idx 1 data) as [id| | |]; cbn [rbind]; try (left; reflexivity).
+  destruct (h <- sl 2 4 data;; u16at 0 h) as [len| | |]; cbn [rbind]; try (left; reflexivity).
+  destruct (lenN data <? len) eqn:E1; [left; reflexivity|].
+  destruct (len <? 4) eqn:E2; [|left; reflexivity].
+  right. split; [|reflexivity].
+  unfold sl, slice. destruct (Nat.leb_spec (N.to_nat 4) (N.to_nat len)); [lia|]. reflexivity.
+Qed.
